@@ -108,17 +108,23 @@ C10_WriteFaultsSurface(hit, store0, store1) ==
 
 (***************************************************************************)
 (* Part 2. Call-protocol state of one endpoint and its update per call      *)
-(*   m = [ro, max, maxfile, sSt, sTr, count, cache, dirty, sdirty, init]    *)
+(*   m = [ro, max, maxfile, sSt, sTr, count, cache, dirty, sdirty, init,    *)
+(*        fresh]                                                            *)
 (*   sSt / sTr   scannedSinceLastStageCall / ...TransitionCall              *)
 (*   count       lastScanEntryCount        cache   what the last scan saw   *)
 (*   dirty       an external edit happened since the last accepted scan     *)
 (*   sdirty      an external edit happened since the last accepted Stage    *)
 (*               (the base files its signatures describe may have changed)  *)
 (*   maxfile     maximum staging file size (Store.maximumFileSize)          *)
+(*   fresh       the endpoint object was replaced (crash / restart /         *)
+(*               reconnection: same session, same data directory, the       *)
+(*               on-disk staging root survives) and its store has not been  *)
+(*               initialized yet; Store.Initialize then finds the leftover  *)
+(*               root and must rescan its prefix directories                *)
 (*   init        the staging store is initialized: a Stage call got as far  *)
 (*               as stager.Initialize and no transition has finalized it    *)
 (***************************************************************************)
-NewProto(ro, max, maxfile) == [ro |-> ro, max |-> max, maxfile |-> maxfile, sSt |-> FALSE, sTr |-> FALSE, count |-> 0, cache |-> Nil, dirty |-> FALSE, sdirty |-> FALSE, init |-> FALSE]
+NewProto(ro, max, maxfile) == [ro |-> ro, max |-> max, maxfile |-> maxfile, sSt |-> FALSE, sTr |-> FALSE, count |-> 0, cache |-> Nil, dirty |-> FALSE, sdirty |-> FALSE, init |-> FALSE, fresh |-> FALSE]
 
 ScanOver(m, disk) == Count(disk) > m.max
 \* endpoint.scan stores cache and count before Scan compares with the maximum
@@ -128,11 +134,18 @@ ScanUpd(m, disk) ==
 
 \* Stage: "staging would exceed allowed entry count"
 OverStage(m, n) == m.count + n > m.max
-StageRefused(m, n) == m.ro \/ (n > 0 /\ (~m.sSt \/ OverStage(m, n)))
+\* obstructed: the staging root path is occupied by something that is not a
+\* directory - Store.Initialize (run by the first Stage of a store object) fails
+StageRefused(m, n, obstructed) == m.ro \/ (n > 0 /\ (~m.sSt \/ OverStage(m, n) \/ (obstructed /\ ~m.init)))
 \* the flag is consumed as soon as the no-scan test has been passed
-StageUpd(m, n) == IF m.ro \/ n = 0 \/ ~m.sSt THEN m
-                  ELSE [m EXCEPT !.sSt = FALSE, !.init = IF OverStage(m, n) THEN @ ELSE TRUE,
-                                 !.sdirty = IF OverStage(m, n) THEN @ ELSE FALSE]
+StageUpd(m, n, obstructed) ==
+  IF m.ro \/ n = 0 \/ ~m.sSt THEN m
+  ELSE IF OverStage(m, n) \/ (obstructed /\ ~m.init) THEN [m EXCEPT !.sSt = FALSE]
+  ELSE [m EXCEPT !.sSt = FALSE, !.init = TRUE, !.sdirty = FALSE, !.fresh = FALSE]
+
+\* the endpoint object is replaced: everything in memory is gone (flags, counts, the
+\* store object, the receiver), the disk - root and staging root - is not
+RestartUpd(m) == [m EXCEPT !.sSt = FALSE, !.sTr = FALSE, !.count = 0, !.init = FALSE, !.sdirty = TRUE, !.fresh = TRUE]
 
 \* Transition: resulting entry count, "NEG" if a removal exceeds what exists
 RECURSIVE Resulting(_, _)
@@ -153,7 +166,7 @@ ExtUpd(m) == [m EXCEPT !.dirty = TRUE, !.sdirty = TRUE]
 (* Part 1c. C41 - staging requests only what is missing, limits, ordering   *)
 (***************************************************************************)
 C41_ScanLimit(m, disk0, err) == (err # "") <=> ScanOver(m, disk0)
-C41_StageRefusal(m, req, err) == (err # "") <=> StageRefused(m, Len(req))
+C41_StageRefusal(m, req, obstructed, err) == (err # "") <=> StageRefused(m, Len(req), obstructed)
 C41_TransRefusal(m, chg, err) == (err # "") <=> TransRefused(m, chg)
 
 \* does content of this request fit into one staging file? (real records carry the
@@ -200,6 +213,7 @@ C41_TransLimit(m, chg, disk0, disk1, results, nproblems) ==
 \* else stands in the way) and the disk stays within the limit
 C41_TransWithin(m, chg, disk0, store0, disk1, results) ==
   (~OverTrans(m, chg) /\ ~m.dirty /\ AllApplicable(disk0, chg)
+     /\ (m.init \/ DataFiles(chg) = {})      \* a store object that never staged cannot provide: "store uninitialized"
      /\ \A f \in DataFiles(chg) : GoodSlot(store0, f.path, f.d))
   => results = News(chg) /\ Count(disk1) <= m.max
 
@@ -213,6 +227,8 @@ C41_ReadOnlyRefuses(m, err, disk0, disk1, store0, store1) ==
 (*   "none"            the code as it is                                    *)
 (*   "name_by_expected" Commit names the slot by the digest that was asked  *)
 (*   "no_reverify"     stageFromRoot trusts the reverse lookup              *)
+(*   "no_rescan"       Store.Initialize does not rescan a leftover staging  *)
+(*                     root (e.g. MkdirAll hiding the "exists" answer)      *)
 (*   "offered_hash_and_merge" the hashed writer hashes the bytes OFFERED     *)
 (*                     instead of those accepted AND Commit lets a later   *)
 (*                     nil close error overwrite the flush error            *)
